@@ -535,10 +535,15 @@ func (a *BigInt) M__round__(digits Object) (Object, error) {
 		scale := new(big.Int).Exp((*big.Int)(bigInt10), negB, nil)
 		digits := new(big.Int).Mod(r, scale)
 		r.Sub(r, digits)
-		// Round
+		// Round to nearest, ties to the even multiple
 		digits.Lsh(digits, 1)
-		if digits.Cmp(scale) >= 0 {
+		if c := digits.Cmp(scale); c > 0 {
 			r.Add(r, scale)
+		} else if c == 0 {
+			multiple := new(big.Int).Quo(r, scale)
+			if new(big.Int).Rem(multiple, big.NewInt(2)).Sign() != 0 {
+				r.Add(r, scale)
+			}
 		}
 		if negative {
 			r.Neg(r)
